@@ -105,7 +105,12 @@ class _DrawBase:
         decisions added to a generator later on, so that the recorded choice
         lists of committed replays keep their meaning"""
         seeds = [c[1] for c in self.choices if c[0] == 's']
-        return np.random.default_rng([seeds[-1] if seeds else 0, int(tag)])
+        if seeds:
+            base = seeds[-1]
+        else:
+            # no seed drawn yet: derive the stream from everything drawn so far
+            base = int.from_bytes(digest_choices(self.choices)[:8], 'little')
+        return np.random.default_rng([base, int(tag)])
 
     def ints(self, n, hi):
         """List of n integers in [0, hi] (one recorded choice)."""
